@@ -73,6 +73,8 @@ Sources(st) ==
 
 IsQuery(st) == st.op \in {"leq", "entails", "isbot", "istop"}
 
+SameMeaning(o1, o2) == o1 = o2 \/ \A s \in Box : InGamma(s, o1) = InGamma(s, o2)
+
 (* judgement of a domain's recorded outcome `rec` for step st, given the new witness sets Wn.
    exact = 1 when the domain's projection is a faithful image of its meaning (tools/hist.py):
    only then may two projections be compared for EQUALITY (C16 judgements). *)
@@ -81,6 +83,9 @@ Judge(st, rec, Wn, exact) ==
        \* yes  =>  everything described by a is described by b
        IF rec.ans = 1 /\ ~Covers(rec.ob, Wn[st.a]) THEN "leq-yes-but-not-included"
        ELSE IF rec.ans = 0 /\ st.a = st.b THEN "leq-not-reflexive"
+       \* C16 (value semantics): a value and its copy to which the SAME operations were applied since the copy
+       \* (tools/hist.py twin_history marks the comparison step with "twin") describe the same thing
+       ELSE IF exact = 1 /\ "twin" \in DOMAIN st /\ ~SameMeaning(rec.o, rec.ob) THEN "twin-copies-differ"
        ELSE "ok"
   ELSE IF st.op = "entails" THEN
        IF rec.ans = 1 /\ \E s \in Wn[st.r] : ~Holds(st.c, s) THEN "entails-yes-but-false" ELSE "ok"
@@ -133,7 +138,6 @@ KnownFor(dom, st) == {k \in DOMAIN KnownSigs : SigMatches(KnownSigs[k].sig, dom,
    the first extrapolation step of a history on (DESIGN.md, C16). *)
 Extrapolates(st) == st.op \in {"widen", "widenjoin", "narrow"}
 NoExtrapolationUpTo(k) == \A q \in 1..k : ~Extrapolates(Tr.steps[q])
-SameMeaning(o1, o2) == o1 = o2 \/ \A s \in Box : InGamma(s, o1) = InGamma(s, o2)
 PairJudge(st, k) ==
   IF IsQuery(st) \/ ~NoExtrapolationUpTo(k) THEN {}
   ELSE {p \in {q \in DOMAIN Tr.pairs : <<Tr.pairs[q][1], st.r>> \notin bad /\ <<Tr.pairs[q][2], st.r>> \notin bad
